@@ -27,16 +27,18 @@ type memConn struct {
 	closeCnt     int
 	writes       [][]byte
 	writeCnt     int
-	blockAt      int                   // index of the Write call that blocks until close (-1: none)
-	failAt       int                   // index of the Write call that fails (-1: none)
-	failLen      int                   // number of consecutive Write calls that fail, starting at failAt (0 means 1)
-	failTimeout  bool                  // the failing Write calls report a time-out (net.Error) instead of a plain error
-	failNet      bool                  // ... or a non-time-out net.Error
-	pauseAt      int                   // index of the Write call that waits for `release` and then proceeds normally (-1: none)
-	release      chan struct{}         // closed by the harness to let the paused Write go on
-	delivered    chan struct{}         // closed when every chunk has been handed to the reader
-	endErr       error                 // returned by Read once the chunks are exhausted (nil: block until Close)
-	endWaitWrite bool                  // the end of input is reported only after a Write call has begun
+	blockAt      int           // index of the Write call that blocks until close (-1: none)
+	failAt       int           // index of the Write call that fails (-1: none)
+	failLen      int           // number of consecutive Write calls that fail, starting at failAt (0 means 1)
+	failTimeout  bool          // the failing Write calls report a time-out (net.Error) instead of a plain error
+	failNet      bool          // ... or a non-time-out net.Error
+	pauseAt      int           // index of the Write call that waits for `release` and then proceeds normally (-1: none)
+	release      chan struct{} // closed by the harness to let the paused Write go on
+	delivered    chan struct{} // closed when every chunk has been handed to the reader
+	endErr       error         // returned by Read once the chunks are exhausted (nil: block until Close)
+	endWaitWrite bool          // the end of input is reported only after a Write call has begun
+	endErrOnce   bool          // endErr is reported by one Read call only; later calls block until Close
+	endErrGiven  bool
 	delays       map[int]time.Duration // pause before handing out the chunk with this index (counted from the first)
 	handed       int
 	beforeDone   int
@@ -94,8 +96,10 @@ func (c *memConn) Read(p []byte) (int, error) {
 		c.mu.Unlock()
 		return n, nil
 	}
+	once := c.endErrOnce && c.endErrGiven
+	c.endErrGiven = true
 	c.mu.Unlock()
-	if c.endErr != nil {
+	if c.endErr != nil && !once {
 		if c.endWaitWrite {
 			// the read side fails only once a Write call is in progress (it blocks, see blockAt): reader and writer are both in the transport
 			dl := time.Now().Add(2 * time.Second)
